@@ -5,6 +5,8 @@ A: TrackerSM (TLC): two aircraft flying <= 600 kt (<= 70 kt on the surface) from
    other squitters with either parity, Comm-B replies (also from an unknown address), take-off / landing, time steps
    {0.5, 9.5, 10.5, 61.5, 181} s, batches processed at arbitrary points: every interleaving to depth 6 (quick) / 7
    (thorough); invariants Fresh, Gate, Accurate with the documented algorithm in exact CPR arithmetic.
+B: behaviours chosen by TLC (`-simulate` over TrackerSM, 40-600 per start place, depth 40-60) are turned into concrete
+   frames (CPR fields from the spec's own encoder) and replayed into the real Decode; validated like C.
 C: seeded random histories (2-4 aircraft, genuine CPR squitters built by an integer encoder that TLC re-checks, random
    payloads for every other type code, Comm-B incl. unknown addresses, upper / lower / mixed-case hex, batches spanning
    0.5 s .. 200 s) through the real Decode.process_raw; the full projected table after every call is validated by TLC
@@ -126,6 +128,76 @@ def history(ctx, rng, k):
     return {"fn": "tracker.run", "rx": rx, "script": script, "lower": rng.choice([0, 0, 1, 2])}
 
 
+SCEN_RX = {1: (151440, 12810), 2: (30500, 0), 3: (0, 0), 4: (116500, 524280), 5: (230000, 6250), 6: (152200, 13880)}
+
+
+def frame_for(rng, m):
+    """concrete frame for an abstract TrackerSM message (fields come from the spec's own encoder)"""
+    if m["cls"] == "commb":
+        return commb_frame(rng, m["addr"], rng.choice(["bds50", "rand", "zero"]))
+    if m["cls"] == "ident":
+        return es_frame(rng, m["addr"], rng.randint(1, 4))
+    tc = rng.randint(9, 18) if m["cls"] == "air" else rng.randint(5, 8)
+    f = [(17 << 3) | 5, m["addr"] >> 16, (m["addr"] >> 8) & 255, m["addr"] & 255] + [rng.randrange(256) for _ in range(7)] + [0, 0, 0]
+    f = gen.set_bits(f, 33, 37, tc)
+    if m["cls"] == "surf":
+        f = gen.set_bits(f, 38, 44, rng.randint(1, 124))
+        f = gen.set_bits(f, 45, 45, 1)
+    f = gen.set_bits(f, 54, 54, m["oe"])
+    f = gen.set_bits(f, 55, 71, m["yz"])
+    f = gen.set_bits(f, 72, 88, m["xz"])
+    return gen.with_parity(f[:11])
+
+
+def simulated_histories(ctx):
+    """Role B: behaviours chosen by TLC (-simulate over TrackerSM) turned into process_raw scripts with ground truth"""
+    import glob
+    import shutil
+    from .. import tlaval
+    rng = ctx.rng
+    base = open(os.path.join(tlc.SPEC_DIR, "TrackerSM.cfg")).read().replace("CONSTRAINT Bounded\n", "")
+    V = []
+    nbeh = 0
+    for start in range(1, 7):
+        d = os.path.join(ctx.tmp, "sim%d" % start)
+        os.makedirs(d, exist_ok=True)
+        r = tlc.run("TrackerSM", cfg_text=base.replace("Start = 1", "Start = %d" % start), workers=1,
+                    simulate="file=%s/tr,num=%d" % (d, ctx.pick(40, 600)), depth=ctx.pick(40, 60), seed=ctx.seed * 7 + start, timeout=3000)
+        tlc.require_ok(r, "TrackerSM simulation start %d" % start)
+        ctx.states += r.generated
+        ctx.transitions += r.generated
+        ctx.tlc_runs.append({"module": "TrackerSM", "role": "B", "mode": "simulate", "generated": r.generated, "wall_s": round(r.wall, 2)})
+        for fn in sorted(glob.glob(d + "/tr_*")):
+            beh = tlaval.parse_sim(fn)
+            nbeh += 1
+            script = []
+            seen_msgs = 0
+            prev = None
+            truth_at = {}
+            for lab, st in beh:
+                if prev is not None and lab.startswith("PosSquitter"):
+                    m = st["pend"]["adsb"][-1]
+                    ac = int(lab[lab.index("(") + 1:lab.index(",")])
+                    c = st["air"][ac - 1]
+                    truth_at[(m["addr"], m["t"], len(st["pend"]["adsb"]))] = (c["a"], c["o"])
+                if prev is not None and lab == "Proc":
+                    adsb = []
+                    for k, m in enumerate(prev["pend"]["adsb"]):
+                        tr = truth_at.get((m["addr"], m["t"], k + 1))
+                        adsb.append({"f": frame_for(rng, m), "t": m["t"], "g": 1 if (m["cls"] in ("air", "surf") and tr) else 0,
+                                     "a": tr[0] if tr else 0, "o": tr[1] if tr else 0})
+                    commb = [{"f": frame_for(rng, m), "t": m["t"], "g": 0, "a": 0, "o": 0} for m in prev["pend"]["commb"]]
+                    script.append({"tnow": prev["now"], "adsb": adsb, "commb": commb})
+                    truth_at = {}
+                prev = st
+            if script:
+                rx = SCEN_RX[start]
+                V.append({"fn": "tracker.run", "rx": [1, rx[0], rx[1]], "script": script, "lower": rng.choice([0, 1, 2]), "origin": "tlc"})
+        shutil.rmtree(d, ignore_errors=True)
+    ctx.extra["tlc_simulated_behaviours_replayed"] = nbeh
+    return V
+
+
 def cprpy_rx(x):
     return (x + 8) // 16
 
@@ -219,6 +291,7 @@ def run(ctx):
         ctx.model_check("TrackerSM", cfg_text=base.replace("Start = 1", "Start = %d" % s).replace("MaxLevel = 6", "MaxLevel = %d" % lvl),
                         what="C17 tracker design, start %d" % s, timeout=6000)
     V = [history(ctx, ctx.rng, k) for k in range(ctx.pick(600, 12000))]
+    V += simulated_histories(ctx)
     ev = ctx.replay(V)
     ncalls = 0
     for e in ev:
